@@ -1180,3 +1180,307 @@ Proof.
     + intro H. apply Hn. apply in_app_or in H. destruct H as [H|H]; [apply (seg_in_all c 4); exact H|].
       apply in_app_or in H. destruct H as [H|H]; [apply (seg_in_all c 5) | apply (seg_in_all c 6)]; exact H.
 Qed.
+
+(* ---------------------------------------------------------------- the fields added to a new flow record *)
+Lemma get_snoc : forall r n v m,
+  get (r ++ [(n, v)]) m = match get r m with Some x => Some x | None => if String.eqb n m then Some v else None end.
+Proof. intros. rewrite get_app. simpl. reflexivity. Qed.
+
+Lemma kind_at_app : forall a b n,
+  kind_at (a ++ b) n = match kind_at a n with Some k => Some k | None => kind_at b n end.
+Proof.
+  induction a as [|[m k] t IH]; intros; simpl; [reflexivity|].
+  destruct (String.eqb m n); [reflexivity | apply IH].
+Qed.
+
+Lemma add_stats_loop_spec : forall c fs fd S A B r,
+  List.length A = List.length S -> List.length B = List.length S ->
+  NoDup (S ++ A ++ B) ->
+  (forall n, In n S -> K64 r n) ->
+  (forall n, In n (A ++ B) -> get r n = None) ->
+  (forall n, In n (A ++ B) -> c_reg c n = true) ->
+  exists r', add_stats_loop c fs fd r (zip3 S A B) = AOk r' /\
+    (forall n, ~ In n (A ++ B) -> get r' n = get r n) /\
+    (forall n, In n (A ++ B) -> K64 r' n) /\
+    map (vu64 r') A = map (fun s => if fs then vu64 r s else 0) S /\
+    map (vu64 r') B = map (fun s => if fd then vu64 r s else 0) S.
+Proof.
+  intros c fs fd. induction S as [|s S IH]; intros A B r LA LB ND KS NA RG.
+  - destruct A, B; simpl in *; try discriminate. exists r. simpl. repeat split; try reflexivity.
+    intros n [].
+  - destruct A as [|a A]; [discriminate|]. destruct B as [|b B]; [discriminate|].
+    destruct (nodup3_head _ _ _ _ _ _ ND) as (Nsa & Nsb & Nab & ND' & Is & Ia & Ib).
+    assert (InA : In a ((a :: A) ++ b :: B)) by (left; reflexivity).
+    assert (InB : In b ((a :: A) ++ b :: B)) by (apply in_or_app; right; left; reflexivity).
+    assert (Sub : forall n, In n (A ++ B) -> In n ((a :: A) ++ b :: B)).
+    { intros n H. apply in_app_or in H. destruct H as [H|H].
+      - right. apply in_or_app. left. assumption.
+      - right. apply in_or_app. right. right. assumption. }
+    assert (NinAB : forall n, In n (A ++ B) -> n <> a /\ n <> b).
+    { intros n H. split; intro; subst n.
+      - apply Ia. apply in_or_app. right. assumption.
+      - apply Ib. apply in_or_app. right. assumption. }
+    destruct (KS s (or_introl eq_refl)) as [x Hx].
+    set (sv := if fs then x else 0). set (dv := if fd then x else 0).
+    set (r1 := (r ++ [(a, AU64 sv)]) ++ [(b, AU64 dv)]).
+    assert (G1 : forall m, get r1 m = match get r m with Some y => Some y | None =>
+                   if String.eqb a m then Some (AU64 sv) else if String.eqb b m then Some (AU64 dv) else None end).
+    { intros m. unfold r1. rewrite !get_snoc. destruct (get r m); [reflexivity|].
+      destruct (String.eqb a m); reflexivity. }
+    destruct (IH A B r1) as (r' & LP & FR & KK & EA & EB).
+    + simpl in LA; lia.
+    + simpl in LB; lia.
+    + assumption.
+    + intros n Hn. destruct (KS n (or_intror Hn)) as [y Hy]. exists y. rewrite G1, Hy. reflexivity.
+    + intros n Hn. destruct (NinAB n Hn) as [N1 N2]. rewrite G1, (NA n (Sub n Hn)).
+      rewrite (neq_eqb a n), (neq_eqb b n) by congruence. reflexivity.
+    + intros n Hn. apply RG. apply Sub. assumption.
+    + assert (Ga : get r' a = Some (AU64 sv)).
+      { rewrite FR by (intro H; apply Ia; apply in_or_app; right; assumption).
+        rewrite G1, (NA a InA), String.eqb_refl. reflexivity. }
+      assert (Gb : get r' b = Some (AU64 dv)).
+      { rewrite FR by (intro H; apply Ib; apply in_or_app; right; assumption).
+        rewrite G1, (NA b InB), (neq_eqb a b Nab), String.eqb_refl. reflexivity. }
+      assert (V1 : forall n, In n S -> vu64 r1 n = vu64 r n).
+      { intros n Hn. destruct (KS n (or_intror Hn)) as [y Hy]. unfold vu64. rewrite G1, Hy. reflexivity. }
+      exists r'. split; [|split; [|split; [|split]]].
+      * cbn [zip3 add_stats_loop]. rewrite Hx. rewrite (RG a InA), (RG b InB). cbn [negb].
+        assert (Q1 : (if fs then get_u64 (AU64 x) else AOk 0) = AOk sv) by (unfold sv; destruct fs; reflexivity).
+        assert (Q2 : (if fd then get_u64 (AU64 x) else AOk 0) = AOk dv) by (unfold dv; destruct fd; reflexivity).
+        rewrite Q1. cbn [abind]. rewrite Q2. cbn [abind]. exact LP.
+      * intros n Hn. rewrite FR by (intro H; apply Hn; apply Sub; assumption).
+        rewrite G1. destruct (get r n); [reflexivity|].
+        rewrite (neq_eqb a n), (neq_eqb b n); [reflexivity | |]; intro; subst n; apply Hn; assumption.
+      * intros n Hn. simpl in Hn. destruct Hn as [<-|Hn]; [eexists; exact Ga|].
+        apply in_app_or in Hn. destruct Hn as [Hn|Hn].
+        -- apply KK. apply in_or_app. left. assumption.
+        -- simpl in Hn. destruct Hn as [<-|Hn]; [eexists; exact Gb|]. apply KK. apply in_or_app. right. assumption.
+      * cbn [map]. f_equal.
+        -- unfold vu64 at 1. rewrite Ga. unfold sv, vu64. rewrite Hx. reflexivity.
+        -- rewrite EA. apply map_ext_in. intros n Hn. rewrite V1 by assumption. reflexivity.
+      * cbn [map]. f_equal.
+        -- unfold vu64 at 1. rewrite Gb. unfold dv, vu64. rewrite Hx. reflexivity.
+        -- rewrite EB. apply map_ext_in. intros n Hn. rewrite V1 by assumption. reflexivity.
+Qed.
+
+Lemma add_tp_loop_spec : forall c fs fd T TS TD r vals,
+  List.length TS = List.length T -> List.length TD = List.length T -> List.length vals = List.length T ->
+  NoDup (T ++ TS ++ TD) ->
+  (forall n, In n (T ++ TS ++ TD) -> get r n = None) ->
+  (forall n, In n (T ++ TS ++ TD) -> c_reg c n = true) ->
+  exists r', add_tp_loop c fs fd r vals (zip3 T TS TD) = AOk r' /\
+    (forall n, ~ In n (T ++ TS ++ TD) -> get r' n = get r n) /\
+    (forall n, In n (T ++ TS ++ TD) -> K64 r' n) /\
+    map (vu64 r') T = vals /\
+    map (vu64 r') TS = map (fun v => if fs then v else 0) vals /\
+    map (vu64 r') TD = map (fun v => if fd then v else 0) vals.
+Proof.
+  intros c fs fd. induction T as [|t T IH]; intros TS TD r vals L1 L2 LV ND NA RG.
+  - destruct TS, TD, vals; simpl in *; try discriminate. exists r. simpl. repeat split; try reflexivity.
+    intros n [].
+  - destruct TS as [|a TS]; [discriminate|]. destruct TD as [|b TD]; [discriminate|].
+    destruct vals as [|v vals]; [discriminate|].
+    destruct (nodup3_head _ _ _ _ _ _ ND) as (Nsa & Nsb & Nab & ND' & Is & Ia & Ib).
+    assert (InS : In t ((t :: T) ++ (a :: TS) ++ b :: TD)) by (left; reflexivity).
+    assert (InA : In a ((t :: T) ++ (a :: TS) ++ b :: TD)) by (apply in_or_app; right; left; reflexivity).
+    assert (InB : In b ((t :: T) ++ (a :: TS) ++ b :: TD))
+      by (apply in_or_app; right; apply in_or_app; right; left; reflexivity).
+    assert (Sub : forall n, In n (T ++ TS ++ TD) -> In n ((t :: T) ++ (a :: TS) ++ b :: TD)).
+    { intros n H. apply in_app_or in H. destruct H as [H|H].
+      - right. apply in_or_app. left. assumption.
+      - apply in_app_or in H. apply in_or_app. right. destruct H as [H|H].
+        + right. apply in_or_app. left. assumption.
+        + right. apply in_or_app. right. right. assumption. }
+    set (r1 := ((r ++ [(t, AU64 v)]) ++ [(a, AU64 (if fs then v else 0))]) ++ [(b, AU64 (if fd then v else 0))]).
+    assert (G1 : forall m, get r1 m = match get r m with Some y => Some y | None =>
+                   if String.eqb t m then Some (AU64 v)
+                   else if String.eqb a m then Some (AU64 (if fs then v else 0))
+                   else if String.eqb b m then Some (AU64 (if fd then v else 0)) else None end).
+    { intros m. unfold r1. rewrite !get_snoc. destruct (get r m); [reflexivity|].
+      destruct (String.eqb t m); [reflexivity|]. destruct (String.eqb a m); reflexivity. }
+    destruct (IH TS TD r1 vals) as (r' & LP & FR & KK & ET & EA & EB).
+    + simpl in L1; lia.
+    + simpl in L2; lia.
+    + simpl in LV; lia.
+    + assumption.
+    + intros n Hn. rewrite G1, (NA n (Sub n Hn)).
+      rewrite (neq_eqb t n), (neq_eqb a n), (neq_eqb b n); [reflexivity | | |]; intro; subst n; auto.
+    + intros n Hn. apply RG. apply Sub. assumption.
+    + assert (Gt : get r' t = Some (AU64 v)).
+      { rewrite FR by assumption. rewrite G1, (NA t InS), String.eqb_refl. reflexivity. }
+      assert (Ga : get r' a = Some (AU64 (if fs then v else 0))).
+      { rewrite FR by assumption. rewrite G1, (NA a InA), (neq_eqb t a Nsa), String.eqb_refl. reflexivity. }
+      assert (Gb : get r' b = Some (AU64 (if fd then v else 0))).
+      { rewrite FR by assumption.
+        rewrite G1, (NA b InB), (neq_eqb t b Nsb), (neq_eqb a b Nab), String.eqb_refl. reflexivity. }
+      exists r'. split; [|split; [|split; [|split; [|split]]]].
+      * cbn [zip3 add_tp_loop]. rewrite (RG t InS), (RG a InA), (RG b InB). cbn [negb]. exact LP.
+      * intros n Hn. rewrite FR by (intro H; apply Hn; apply Sub; assumption).
+        rewrite G1. destruct (get r n); [reflexivity|].
+        rewrite (neq_eqb t n), (neq_eqb a n), (neq_eqb b n); [reflexivity | | |]; intro; subst n; apply Hn; assumption.
+      * intros n Hn. simpl in Hn. destruct Hn as [<-|Hn]; [eexists; exact Gt|].
+        apply in_app_or in Hn. destruct Hn as [Hn|Hn]; [apply KK; apply in_or_app; left; assumption|].
+        simpl in Hn. destruct Hn as [<-|Hn]; [eexists; exact Ga|].
+        apply in_app_or in Hn. destruct Hn as [Hn|Hn].
+        -- apply KK. apply in_or_app. right. apply in_or_app. left. assumption.
+        -- simpl in Hn. destruct Hn as [<-|Hn]; [eexists; exact Gb|].
+           apply KK. apply in_or_app. right. apply in_or_app. right. assumption.
+      * cbn [map]. f_equal; [unfold vu64; rewrite Gt; reflexivity | exact ET].
+      * cbn [map]. f_equal; [unfold vu64; rewrite Ga; reflexivity | exact EA].
+      * cbn [map]. f_equal; [unfold vu64; rewrite Gb; reflexivity | exact EB].
+Qed.
+
+Lemma in_added : forall c i n, (1 <= i <= 6)%nat -> In n (seg c i) -> In n (added_names c).
+Proof.
+  intros c i n Hi H. unfold added_names.
+  destruct i as [|[|[|[|[|[|[|i]]]]]]]; try lia; unfold seg in H; simpl in H;
+    repeat (apply in_or_app; (left; assumption) || right); assumption.
+Qed.
+
+Lemma create_refines : forall c inc fs fd,
+  wf_config c = true -> typed_shape c (shape inc) = true ->
+  exists r2, (ado r1 <- add_fields_for_stats c inc fs fd; add_fields_for_throughput c r1 fs fd) = AOk r2 /\
+    stored_ok c (shape inc) r2 /\ abs c r2 = spec_create c fs fd (obs_of c inc).
+Proof.
+  intros c inc fs fd WF TS.
+  pose proof (wf_config_facts c WF) as W. pose proof (typed_shape_facts c _ TS) as T.
+  pose proof (wf_nd c W) as ND. pose proof (wf_fe c W) as HFE.
+  assert (ABS : forall n, In n (added_names c) -> get inc n = None).
+  { intros n Hn. pose proof (ts_added _ _ T n Hn) as H. rewrite kind_at_shape in H.
+    destruct (get inc n); [discriminate | reflexivity]. }
+  assert (ND3 : NoDup (c_stats c ++ c_src_stats c ++ c_dst_stats c)).
+  { pose proof ND as ND0. unfold all_names, added_names in ND0. rewrite <- !app_assoc in ND0.
+    rewrite !app_assoc in ND0. do 5 apply nodup_app_l in ND0. rewrite <- app_assoc in ND0. assumption. }
+  assert (ND4 : NoDup (c_tp c ++ c_src_tp c ++ c_dst_tp c)).
+  { pose proof ND as ND0. unfold all_names, added_names in ND0. rewrite <- !app_assoc in ND0.
+    do 4 apply nodup_app_r in ND0. rewrite !app_assoc in ND0. apply nodup_app_l in ND0.
+    rewrite <- app_assoc in ND0. assumption. }
+  assert (AB : forall n, In n (c_src_stats c ++ c_dst_stats c) -> In n (added_names c)).
+  { intros n H. apply in_app_or in H. destruct H; [apply (in_added c 1) | apply (in_added c 2)]; try lia; assumption. }
+  assert (TT : forall n, In n (c_tp c ++ c_src_tp c ++ c_dst_tp c) -> In n (added_names c)).
+  { intros n H. apply in_app_or in H. destruct H as [H|H]; [apply (in_added c 4); [lia | exact H]|].
+    apply in_app_or in H. destruct H; [apply (in_added c 5) | apply (in_added c 6)]; try lia; assumption. }
+  destruct (add_stats_loop_spec c fs fd (c_stats c) (c_src_stats c) (c_dst_stats c) inc
+              (wf_len_src c W) (wf_len_dst c W) ND3) as (r1 & P1 & FR1 & KK1 & EA & EB).
+  { intros n Hn. apply kind_K64. apply (ts_stats _ _ T). assumption. }
+  { intros n Hn. apply ABS. apply AB. assumption. }
+  { intros n Hn. apply (wf_reg c W). apply AB. assumption. }
+  assert (FR1seg : forall i n, (i <> 1)%nat -> (i <> 2)%nat -> In n (seg c i) -> get r1 n = get inc n).
+  { intros i n N1 N2 Hn. apply FR1. intro H. apply in_app_or in H. destruct H as [H|H].
+    - apply (seg_disj c ND i 1 n); [assumption | assumption | exact H].
+    - apply (seg_disj c ND i 2 n); [assumption | assumption | exact H]. }
+  destruct (kind_K32 inc _ (ts_end _ _ T)) as [e He].
+  destruct (kind_K32 inc _ (ts_start _ _ T)) as [st Hst].
+  destruct (kind_K64 inc _ (ts_stats _ _ T _ (wf_has_oct c W))) as [oc Hoc].
+  destruct (kind_K64 inc _ (ts_stats _ _ T _ (wf_has_roct c W))) as [roc Hroc].
+  assert (G1e : get r1 "flowEndSeconds" = Some (AU32 e)) by (rewrite (FR1seg 7%nat); [exact He | discriminate | discriminate | in_seg]).
+  assert (G1s : get r1 "flowStartSeconds" = Some (AU32 st)) by (rewrite (FR1seg 7%nat); [exact Hst | discriminate | discriminate | in_seg]).
+  assert (G1o : get r1 "octetTotalCount" = Some (AU64 oc))
+    by (rewrite (FR1seg 0%nat); [exact Hoc | discriminate | discriminate | exact (wf_has_oct c W)]).
+  assert (G1r : get r1 "reverseOctetTotalCount" = Some (AU64 roc))
+    by (rewrite (FR1seg 0%nat); [exact Hroc | discriminate | discriminate | exact (wf_has_roct c W)]).
+  set (v1 := if fs then e else 0). set (v2 := if fd then e else 0).
+  set (r1e := (r1 ++ [(src_end_name, AU32 v1)]) ++ [(dst_end_name, AU32 v2)]).
+  assert (Isrc : In src_end_name (seg c 3)) by (unfold seg; simpl; rewrite HFE; in_seg).
+  assert (Idst : In dst_end_name (seg c 3)) by (unfold seg; simpl; rewrite HFE; in_seg).
+  assert (N1src : get r1 src_end_name = None).
+  { rewrite (FR1seg 3%nat); [| discriminate | discriminate | exact Isrc]. apply ABS. apply (in_added c 3); [lia | exact Isrc]. }
+  assert (N1dst : get r1 dst_end_name = None).
+  { rewrite (FR1seg 3%nat); [| discriminate | discriminate | exact Idst]. apply ABS. apply (in_added c 3); [lia | exact Idst]. }
+  assert (GE : forall m, get r1e m = match get r1 m with Some y => Some y | None =>
+              if String.eqb src_end_name m then Some (AU32 v1)
+              else if String.eqb dst_end_name m then Some (AU32 v2) else None end).
+  { intros m. unfold r1e. rewrite !get_snoc. destruct (get r1 m); [reflexivity|].
+    destruct (String.eqb src_end_name m); reflexivity. }
+  set (dt := e - st).
+  set (tp := if N.ltb st e then mul8 oc / dt else 0). set (rtp := if N.ltb st e then mul8 roc / dt else 0).
+  destruct (add_tp_loop_spec c fs fd (c_tp c) (c_src_tp c) (c_dst_tp c) r1e [tp; rtp]) as (r2 & P2 & FR2 & KK2 & ET & ETS & ETD).
+  { rewrite (wf_len_stp c W), (wf_len_tp c W). reflexivity. }
+  { rewrite (wf_len_dtp c W), (wf_len_tp c W). reflexivity. }
+  { rewrite (wf_len_tp c W). reflexivity. }
+  { exact ND4. }
+  { intros n Hn. rewrite GE.
+    assert (Hs : exists i, (4 <= i <= 6)%nat /\ In n (seg c i)).
+    { apply in_app_or in Hn. destruct Hn as [Hn|Hn]; [exists 4%nat; split; [lia | exact Hn]|].
+      apply in_app_or in Hn. destruct Hn as [Hn|Hn]; [exists 5%nat | exists 6%nat]; (split; [lia | exact Hn]). }
+    destruct Hs as (i & Hi & Hin).
+    rewrite (FR1seg i n) by (try lia; exact Hin). rewrite (ABS n (TT n Hn)).
+    rewrite (neq_eqb src_end_name n), (neq_eqb dst_end_name n); [reflexivity | |];
+      intro; subst n; apply (seg_disj c ND i 3 _ ltac:(lia) Hin); assumption. }
+  { intros n Hn. apply (wf_reg c W). apply TT. assumption. }
+  assert (FR2seg : forall i n, (i < 4 \/ i = 7)%nat -> In n (seg c i) -> get r2 n = get r1e n).
+  { intros i n Hi4 Hn. apply FR2. intro H. apply in_app_or in H. destruct H as [H|H].
+    - apply (seg_disj c ND i 4 n); [lia | assumption | exact H].
+    - apply in_app_or in H. destruct H as [H|H].
+      + apply (seg_disj c ND i 5 n); [lia | assumption | exact H].
+      + apply (seg_disj c ND i 6 n); [lia | assumption | exact H]. }
+  (* original fields survive *)
+  assert (ORIG : forall n v, get inc n = Some v -> get r2 n = Some v).
+  { intros n v Hv.
+    assert (Nadd : ~ In n (added_names c)) by (intro H; rewrite (ABS n H) in Hv; discriminate).
+    rewrite FR2 by (intro H; apply Nadd; apply TT; assumption).
+    rewrite GE. rewrite FR1 by (intro H; apply Nadd; apply AB; assumption). rewrite Hv. reflexivity. }
+  exists r2. split; [|split].
+  - unfold add_fields_for_stats. rewrite (wf_nil c W). unfold stat_triples. rewrite P1. cbn [abind].
+    unfold add_fields_for_throughput. rewrite (wf_nil c W). unfold rd_field.
+    rewrite G1s, G1e, G1o, G1r. cbn [get_u32 get_u64 abind].
+    rewrite HFE. cbn [add_end_loop].
+    assert (R1 : c_reg c src_end_name = true) by (apply (wf_reg c W); apply (in_added c 3); [lia | exact Isrc]).
+    assert (R2 : c_reg c dst_end_name = true) by (apply (wf_reg c W); apply (in_added c 3); [lia | exact Idst]).
+    rewrite R1, R2. cbn [negb].
+    replace (contains "Source" src_end_name) with true by reflexivity.
+    replace (contains "Destination" src_end_name) with false by reflexivity.
+    replace (contains "Source" dst_end_name) with false by reflexivity.
+    replace (contains "Destination" dst_end_name) with true by reflexivity.
+    rewrite !andb_true_r, !andb_false_r, !orb_false_r. cbn [orb]. fold v1 v2. fold r1e.
+    cbn [abind]. fold dt. fold tp rtp. unfold tp_triples. exact P2.
+  - unfold stored_ok. split; [|split].
+    + intros n k Hk. rewrite kind_at_shape in Hk |- *. destruct (get inc n) as [v|] eqn:Gv; [|discriminate].
+      rewrite (ORIG n v Gv). exact Hk.
+    + intros n Hn. rewrite kind_at_shape. unfold u64_names in Hn.
+      rewrite app_assoc in Hn. apply in_app_or in Hn. destruct Hn as [Hn|Hn].
+      * assert (Hs : exists i, (1 <= i <= 2)%nat /\ In n (seg c i)).
+        { apply in_app_or in Hn. destruct Hn as [Hn|Hn]; [exists 1%nat | exists 2%nat]; (split; [lia | exact Hn]). }
+        destruct Hs as (i & Hi & Hin).
+        rewrite (FR2seg i n) by (try lia; exact Hin). rewrite GE.
+        destruct (KK1 n Hn) as [y Hy]. rewrite Hy. reflexivity.
+      * destruct (KK2 n Hn) as [y Hy]. rewrite Hy. reflexivity.
+    + intros n Hn. rewrite HFE in Hn. rewrite kind_at_shape.
+      rewrite (FR2seg 3%nat n) by (first [lia | unfold seg; simpl; rewrite HFE; exact Hn]). rewrite GE.
+      simpl in Hn. destruct Hn as [<-|[<-|[]]].
+      * rewrite N1src, String.eqb_refl. reflexivity.
+      * rewrite N1dst. simpl. reflexivity.
+  - unfold abs, abs_node, spec_create, obs_of.
+    cbn [o_start o_end o_stat o_oct o_roct o_reason o_tcp].
+    replace (vu32 inc "flowStartSeconds") with st by (unfold vu32; rewrite Hst; reflexivity).
+    replace (vu32 inc "flowEndSeconds") with e by (unfold vu32; rewrite He; reflexivity).
+    replace (vu64 inc "octetTotalCount") with oc by (unfold vu64; rewrite Hoc; reflexivity).
+    replace (vu64 inc "reverseOctetTotalCount") with roc by (unfold vu64; rewrite Hroc; reflexivity).
+    fold dt. fold tp rtp.
+    assert (XA : map (vu64 r2) (c_src_stats c) = map (vu64 r1) (c_src_stats c)).
+    { apply map_ext_in. intros n Hn. apply vu64_ext. rewrite (FR2seg 1%nat n) by (first [lia | exact Hn]).
+      rewrite GE. assert (In n (c_src_stats c ++ c_dst_stats c)) as Hn' by (apply in_or_app; left; exact Hn).
+      destruct (KK1 n Hn') as [y Hy]. rewrite Hy. reflexivity. }
+    assert (XB : map (vu64 r2) (c_dst_stats c) = map (vu64 r1) (c_dst_stats c)).
+    { apply map_ext_in. intros n Hn. apply vu64_ext. rewrite (FR2seg 2%nat n) by (first [lia | exact Hn]).
+      rewrite GE. assert (In n (c_src_stats c ++ c_dst_stats c)) as Hn' by (apply in_or_app; right; exact Hn).
+      destruct (KK1 n Hn') as [y Hy]. rewrite Hy. reflexivity. }
+    assert (XS : map (vu64 r2) (c_stats c) = map (vu64 inc) (c_stats c)).
+    { apply map_ext_in. intros n Hn. destruct (kind_K64 inc _ (ts_stats _ _ T n Hn)) as [y Hy].
+      unfold vu64. rewrite (ORIG n _ Hy), Hy. reflexivity. }
+    rewrite XA, XB, XS, EA, EB, ET, ETS, ETD.
+    assert (Ge2 : vu32 r2 "flowEndSeconds" = e) by (unfold vu32; rewrite (ORIG _ _ He); reflexivity).
+    assert (Gs2 : vu32 r2 src_end_name = v1).
+    { unfold vu32. rewrite (FR2seg 3%nat) by (first [lia | exact Isrc]). rewrite GE, N1src, String.eqb_refl. reflexivity. }
+    assert (Gd2 : vu32 r2 dst_end_name = v2).
+    { unfold vu32. rewrite (FR2seg 3%nat) by (first [lia | exact Idst]). rewrite GE, N1dst. simpl. reflexivity. }
+    rewrite Ge2, Gs2, Gd2.
+    assert (GR : get r2 "flowEndReason" = get inc "flowEndReason").
+    { rewrite (FR2seg 7%nat) by (first [lia | in_seg]). rewrite GE.
+      rewrite (FR1seg 7%nat) by (first [discriminate | in_seg]). destruct (get inc "flowEndReason"); reflexivity. }
+    assert (GT : get r2 "tcpState" = get inc "tcpState").
+    { rewrite (FR2seg 7%nat) by (first [lia | in_seg]). rewrite GE.
+      rewrite (FR1seg 7%nat) by (first [discriminate | in_seg]). destruct (get inc "tcpState"); reflexivity. }
+    rewrite GR, GT. rewrite !map_map. unfold v1, v2.
+    destruct fs, fd; reflexivity.
+Qed.
